@@ -280,6 +280,29 @@ func init() {
 					w.Out.Violations = append(w.Out.Violations, ViolationRec{Violation: v, Replay: path, Size: 1})
 				}
 			}
+			for _, sh := range depthShapes {
+				a, b := scaleAlloc(sh.make(8)), scaleAlloc(sh.make(12))
+				ratio := float64(b) / float64(a+1)
+				w.Out.Runs += 2
+				w.Out.Cases += 2
+				if int(ratio*100) > w.Out.Extra["max_alloc_ratio_x100_for_depth_plus_4"] {
+					w.Out.Extra["max_alloc_ratio_x100_for_depth_plus_4"] = int(ratio * 100)
+				}
+				if ratio > 6 {
+					v := Violation{Prop: "C11", Class: "superlinear", Msg: fmt.Sprintf("shape %q: four more levels (8 -> 12 lines) multiply the memory allocated by the parser by %.1f (%d -> %d bytes): work grows exponentially with the depth of the definitions", sh.name, ratio, a, b)}
+					if id := matchKnown(w.Known, &v, map[string]string{"shape": sh.name}); id != "" {
+						w.Out.Known[id]++
+						continue
+					}
+					dir := filepath.Join(w.OutDir, "replays")
+					os.MkdirAll(dir, 0o755)
+					path := filepath.Join(dir, fmt.Sprintf("C11-superlinear-%s.json", sh.name))
+					rf := &replayFile{Property: "C11", Engine: "stream-scale", Violation: v, Input: map[string]any{"shape": sh.name, "depth": 8, "plus": 4}}
+					b, _ := json.MarshalIndent(rf, "", " ")
+					os.WriteFile(path, b, 0o644)
+					w.Out.Violations = append(w.Out.Violations, ViolationRec{Violation: v, Replay: path, Size: 1})
+				}
+			}
 			if len(w.Out.Violations) > 0 {
 				return nil, ""
 			}
@@ -367,6 +390,19 @@ func init() {
 				}
 			}
 		}
+		for _, sh := range depthShapes {
+			if sh.name == in.Shape {
+				a, b := scaleAlloc(sh.make(8)), scaleAlloc(sh.make(12))
+				if ratio := float64(b) / float64(a+1); ratio > 6 {
+					v := Violation{Prop: "C11", Class: "superlinear", Msg: fmt.Sprintf("shape %q: ratio %.1f", sh.name, ratio)}
+					if id := matchKnown(w.Known, &v, map[string]string{"shape": sh.name}); id != "" {
+						w.Out.Known[id]++
+						return
+					}
+					w.Out.Violations = append(w.Out.Violations, ViolationRec{Violation: v, Replay: path})
+				}
+			}
+		}
 	}
 	extraReplays["stream"] = func(w *Worker, rf *replayFile, path string) {
 		var c *StreamCase
@@ -431,6 +467,45 @@ var scaleShapes = []scaleShape{
 	}},
 	{"print-chain-of-length-n", func(n int) string {
 		return "prc[a] : 1 = " + strings.Repeat("print l;\n", n) + "close self\n"
+	}},
+}
+
+// depthShapes grow by a few lines per unit of depth; they are parsed at depth d and d+4 (work
+// that doubles per level shows as a factor 16).
+var depthShapes = []scaleShape{
+	{"type-chain-with-shared-subtypes", func(d int) string {
+		var sb strings.Builder
+		for i := 0; i < d; i++ {
+			fmt.Fprintf(&sb, "type T%d = +{a : T%d, b : T%d}\n", i, i+1, i+1)
+		}
+		fmt.Fprintf(&sb, "type T%d = 1\n", d)
+		return sb.String()
+	}},
+	{"moded-type-chain-with-shared-subtypes", func(d int) string {
+		var sb strings.Builder
+		for i := 0; i < d; i++ {
+			fmt.Fprintf(&sb, "type T%d = lin &{a : T%d, b : T%d}\n", i, i+1, i+1)
+		}
+		fmt.Fprintf(&sb, "type T%d = lin 1\n", d)
+		return sb.String()
+	}},
+	{"nested-pairs-of-one-name", func(d int) string {
+		t := "A"
+		for i := 0; i < d; i++ {
+			t = "(" + t + " * " + t + ")"
+			if len(t) > 4000 {
+				break
+			}
+		}
+		return "type A = 1\ntype B = " + t + "\n"
+	}},
+	{"alias-chain", func(d int) string {
+		var sb strings.Builder
+		for i := 0; i < d; i++ {
+			fmt.Fprintf(&sb, "type T%d = T%d\n", i, i+1)
+		}
+		fmt.Fprintf(&sb, "type T%d = 1\nprc[a] : T0 = close self\n", d)
+		return sb.String()
 	}},
 }
 
